@@ -260,7 +260,7 @@ func c27Edits(s c27Seal, rq c27Request, lay c27Layout, rng *mrand.Rand, thorough
 				}
 			case "token":
 				reps = []rep{{"next", c27Next(c27Hex, old)}}
-				if thorough || off%8 == phase {
+				if (thorough && off%4 == phase%4) || off%8 == phase {
 					reps = append(reps, rep{"case", strings.ToUpper(string(old))[0]}, rep{"bad", 'g'})
 				}
 			}
@@ -459,4 +459,34 @@ func TestVerifC27Envelope(t *testing.T) {
 	}
 	cw.Close()
 	t.Logf("c27: %d seals, %d calls", len(seals), len(cases))
+}
+
+// TestVerifC27Replay re-executes the calls of a replay file (seals + calls as
+// logged earlier) against the tree under test and logs the fresh replies.
+func TestVerifC27Replay(t *testing.T) {
+	in, outDir := os.Getenv("VERIF_IN"), os.Getenv("VERIF_OUT")
+	if in == "" || outDir == "" {
+		t.Skip("VERIF_IN / VERIF_OUT not set")
+	}
+	os.MkdirAll(outDir+"/home", 0o700)
+	os.Setenv("HOME", outDir+"/home")
+	cw, err := vkNewTrace(outDir + "/io.ndjson")
+	if err != nil {
+		t.Fatal(err)
+	}
+	defer cw.Close()
+	err = vkLoadLines(in, func(b []byte) error {
+		var c c27Case
+		if err := json.Unmarshal(b, &c); err != nil {
+			return err
+		}
+		c.inp = c27Bytes(c.Inp)
+		os.Setenv("EGO_SERVER_TOKEN_KEY", c.Pass)
+		c27Exec(&c)
+		cw.Emit(&c)
+		return nil
+	})
+	if err != nil {
+		t.Fatal(err)
+	}
 }
